@@ -23,7 +23,7 @@ for line in open(SUM):
     e["demo_clean"], e["demo_patched"] = c0, c1
     e["runs"].append({"after_strengthening": bool(rerun), "checks": checks})
 for (prop, k), e in sorted(rows.items()):
-    src = f"/tmp/seed/{prop}/_seed/{k}"
+    src = f"/tmp/seed/{prop}/_seed/{k}" if int(k) <= 3 else f"/tmp/seed2/{prop}/_seed/{int(k) - 3}"
     if not os.path.exists(f"{src}/patch.diff"):
         continue
     dst = f"/verif/seeded/{prop}-{k}"
